@@ -31,6 +31,7 @@ func init() {
 			need(m, &out, "insertions_compared", 3000)
 			need(m, &out, "corruptions_compared", 500)
 			need(m, &out, "models_with_damaged_pid", 20)
+			need(m, &out, "long_gap_merges", 8)
 			needSet(m, &out, "interleaving_signatures", 2000)
 			return out
 		},
@@ -300,6 +301,69 @@ func runC07(c *mon.Ctx) {
 		}
 		if i < 2 {
 			c.Sample("models", map[string]any{"pids": pids, "packets": len(basePk), "damaged": damaged, "merges": K + 3})
+		}
+	}
+	// (a') long gaps: a sparse PID whose packets are separated by more than a thousand packets of other PIDs / null packets
+	nlong := c.Pick(8, 120)
+	for li := int64(0); li < nlong; li++ {
+		if !c.Mine("long-gap", li) {
+			continue
+		}
+		r := c.Rng("long-gap", li)
+		sparse, busy := uint16(0x101), uint16(0x102)
+		var su, bu []*gen.Unit
+		for k := 0; k < 3; k++ {
+			u := gen.NewPESUnit(r, sparse, k, gen.PESOpts{DataLen: 20 + r.IntN(300), Unbounded: k%2 == 0, Salt: true})
+			u.PlanChunks(gen.RandomChunks(r, len(u.Payload), 0, 0, true))
+			su = append(su, u)
+		}
+		gap := 1030 + r.IntN(1200)
+		for n := 0; n < 2*gap; {
+			u := gen.NewPESUnit(r, busy, 100+n, gen.PESOpts{DataLen: 150 + r.IntN(3000), Unbounded: true, Salt: true})
+			u.PlanChunks(gen.RandomChunks(r, len(u.Payload), 0, 0, true))
+			bu = append(bu, u)
+			n += len(u.Plan)
+		}
+		per := map[uint16][]*gen.Unit{sparse: su, busy: bu}
+		nb := gen.NumPackets(bu)
+		// canonical: sparse PID first; variant: its three units separated by long runs of the busy PID (and null packets)
+		var canon, spread []uint16
+		for _, u := range su {
+			canon = append(canon, repeatPID(sparse, len(u.Plan))...)
+		}
+		canon = append(canon, repeatPID(busy, nb)...)
+		left := nb
+		for k, u := range su {
+			spread = append(spread, repeatPID(sparse, len(u.Plan))...)
+			take := gap
+			if k == len(su)-1 || take > left {
+				take = left
+			}
+			spread = append(spread, repeatPID(busy, take)...)
+			left -= take
+		}
+		cs := gen.Mux(per, canon, nil)
+		base, _ := perPIDOut(cs.Bytes)
+		ss := gen.Mux(per, spread, nil)
+		pk := ss.Packets
+		if li%2 == 1 {
+			// null packets inside the gaps as well
+			var v []*astits.Packet
+			for j, p := range pk {
+				v = append(v, p)
+				if j%3 == 0 {
+					v = append(v, &astits.Packet{Header: astits.PacketHeader{PID: 0x1fff, HasPayload: true}, Payload: filled(184, 0xff)})
+				}
+			}
+			pk = v
+		}
+		got, run := perPIDOut(encodeAll(pk))
+		c.Count("long_gap_merges")
+		c.Case(mon.HashStr("longgap", fmt.Sprint(li)), true)
+		if run.Panic != "" {
+			c.Violate("C07/panic", "long-gap", li, run.Panic, nil)
+		} else if d := comparePerPID(got, base, map[uint16]bool{0x1fff: true}); d != "" {
+			c.Violate("C07/merge-changes-output:long-gap", "long-gap", li, fmt.Sprintf("%d packets of other PIDs between the units of pid %#x: %s", gap, sparse, d), nil)
 		}
 	}
 	// (b) exhaustive merges of micro streams
